@@ -37,13 +37,13 @@ def plan(prop, tier):
         'C04': [('L1', lambda: LY.L1(tier)), ('L1x', lambda: LY.L1x(tier)), ('L2', lambda: LY.L2(tier)), ('L3', lambda: LY.L3(tier)),
                 ('L7', lambda: LY.L3(tier, decimal=True))],
         'C07': [('L1', lambda: LY.L1(tier)), ('L1x', lambda: LY.L1x(tier)), ('L2', lambda: LY.L2(tier)), ('L3', lambda: LY.L3(tier)),
-                ('L6', lambda: LY.L6(tier))],
+                ('L6', lambda: LY.L6(tier)), ('L2b', lambda: LY.L2b(tier))],
         'C08': [('L1', lambda: LY.L1(tier, f, (True, False))), ('L1x', lambda: LY.L1x(tier, f)), ('L3', lambda: LY.L3(tier, f)),
                 ('L7', lambda: LY.L3(tier, f, decimal=True)), ('L4cal', lambda: LY.L4_inputs(tier, f))],
         'C09': [('L1', lambda: LY.L1(tier, b)), ('L1x', lambda: LY.L1x(tier, b)), ('L3', lambda: LY.L3(tier, b)), ('L4cal', lambda: LY.L4_inputs(tier, b)),
                 ('L2', lambda: LY.L2(tier, b))],
         'C14': [('L1', lambda: LY.L1(tier, include_cycles=True)), ('L1x', lambda: LY.L1x(tier)), ('L2', lambda: LY.L2(tier)), ('L3', lambda: LY.L3(tier)),
-                ('L6', lambda: LY.L6(tier, include_cycles=True)), ('L7', lambda: LY.L3(tier, decimal=True)), ('L5', lambda: LY.L5(tier)),
+                ('L6', lambda: LY.L6(tier, include_cycles=True)), ('L7', lambda: LY.L3(tier, decimal=True)), ('L5', lambda: LY.L5(tier)), ('L2b', lambda: LY.L2b(tier)),
                 ('L4cal', lambda: LY.L4_inputs(tier))],
     }
     return P[prop]
